@@ -162,68 +162,80 @@ class STIXPatternVisitorForSTIX2():
             else:
                 return self.instantiate("AndBooleanExpression", [children[0], children[2]])
 
+    def _is_negated(self, children):
+        """
+        A property test is "<path> [NOT] <operator> <literal>": tell whether
+        the optional NOT is present.
+        """
+        return isinstance(children[1], TerminalNode) and \
+            children[1].symbol.type == self.parser_class.NOT
+
     # Visit a parse tree produced by STIXPatternParser#propTestEqual.
     def visitPropTestEqual(self, ctx):
         children = self.visitChildren(ctx)
-        operator = children[1].symbol.type
-        negated = operator != self.parser_class.EQ
+        negated = self._is_negated(children)
+        operator = children[2 if negated else 1].symbol.type
+        if operator != self.parser_class.EQ:
+            # "!=" is represented as a negated equality; "NOT !=" is "="
+            negated = not negated
         return self.instantiate(
-            "EqualityComparisonExpression", children[0], children[3 if len(children) > 3 else 2],
+            "EqualityComparisonExpression", children[0], children[-1],
             negated,
         )
 
     # Visit a parse tree produced by STIXPatternParser#propTestOrder.
     def visitPropTestOrder(self, ctx):
         children = self.visitChildren(ctx)
-        operator = children[1].symbol.type
+        negated = self._is_negated(children)
+        operator = children[2 if negated else 1].symbol.type
         if operator == self.parser_class.GT:
             return self.instantiate(
                 "GreaterThanComparisonExpression", children[0],
-                children[3 if len(children) > 3 else 2], False,
+                children[-1], negated,
             )
         elif operator == self.parser_class.LT:
             return self.instantiate(
                 "LessThanComparisonExpression", children[0],
-                children[3 if len(children) > 3 else 2], False,
+                children[-1], negated,
             )
         elif operator == self.parser_class.GE:
             return self.instantiate(
                 "GreaterThanEqualComparisonExpression", children[0],
-                children[3 if len(children) > 3 else 2], False,
+                children[-1], negated,
             )
         elif operator == self.parser_class.LE:
             return self.instantiate(
                 "LessThanEqualComparisonExpression", children[0],
-                children[3 if len(children) > 3 else 2], False,
+                children[-1], negated,
             )
 
     # Visit a parse tree produced by STIXPatternParser#propTestSet.
     def visitPropTestSet(self, ctx):
         children = self.visitChildren(ctx)
-        return self.instantiate("InComparisonExpression", children[0], children[3 if len(children) > 3 else 2], False)
+        return self.instantiate("InComparisonExpression", children[0], children[-1], self._is_negated(children))
 
     # Visit a parse tree produced by STIXPatternParser#propTestLike.
     def visitPropTestLike(self, ctx):
         children = self.visitChildren(ctx)
-        return self.instantiate("LikeComparisonExpression", children[0], children[3 if len(children) > 3 else 2], False)
+        return self.instantiate("LikeComparisonExpression", children[0], children[-1], self._is_negated(children))
 
     # Visit a parse tree produced by STIXPatternParser#propTestRegex.
     def visitPropTestRegex(self, ctx):
         children = self.visitChildren(ctx)
         return self.instantiate(
-            "MatchesComparisonExpression", children[0], children[3 if len(children) > 3 else 2],
-            False,
+            "MatchesComparisonExpression", children[0], children[-1],
+            self._is_negated(children),
         )
 
     # Visit a parse tree produced by STIXPatternParser#propTestIsSubset.
     def visitPropTestIsSubset(self, ctx):
         children = self.visitChildren(ctx)
-        return self.instantiate("IsSubsetComparisonExpression", children[0], children[3 if len(children) > 3 else 2])
+        return self.instantiate("IsSubsetComparisonExpression", children[0], children[-1], self._is_negated(children))
 
     # Visit a parse tree produced by STIXPatternParser#propTestIsSuperset.
     def visitPropTestIsSuperset(self, ctx):
         children = self.visitChildren(ctx)
-        return self.instantiate("IsSupersetComparisonExpression", children[0], children[3 if len(children) > 3 else 2])
+        return self.instantiate("IsSupersetComparisonExpression", children[0], children[-1], self._is_negated(children))
 
     # Visit a parse tree produced by STIXPatternParser#propTestParen.
     def visitPropTestParen(self, ctx):
